@@ -27,6 +27,20 @@ def specChild (b : Bytes) (pos : Nat) : PStep → Option Nat
        | _ => none)
      | none => none)
 
+/-- pair `i` of the map at `pos` as the sequential decoder finds it: key header offset, key
+    string extent, value offset and value header — `none` when the walk cannot get there, the key
+    is not a string, or the value's header cannot be read -/
+def specPair (b : Bytes) (pos i : Nat) : Option (Nat × Nat × Nat × Nat × Hdr) :=
+  match specKeyPos b pos i with
+  | some kp =>
+    (match readHdr b kp with
+     | some (.scalar (.str ko kl) ke) =>
+       (match readHdr b ke with
+        | some hd => some (kp, ko, kl, ke, hd)
+        | none => none)
+     | _ => none)
+  | none => none
+
 /-- byte offset of the value at `path` below the value at `pos` -/
 def specPath (b : Bytes) (pos : Nat) : Path → Option Nat
   | [] => some pos
